@@ -11,17 +11,41 @@ pub struct HoldTapConfig<'a> { p: core::marker::PhantomData<&'a u8> }
 pub struct UnmodMods { p: u8 }
 #[verifier::external_body]
 pub struct Overrides { p: u8 }
-/// the per-layer table `HashMap<OsCode, Vec<OsCode>>`: abstractly, a set of (position, output key)
+impl Overrides {
+    /// the output keys of the overrides whose input (non-modifier) key is `osc`, in table order
+    pub uninterp spec fn outs_for(&self, osc: OsCode) -> Seq<OsCode>;
+    /// ASSUMED contract (FxHashMap lookup + iterator map in parser/src/cfg/key_override.rs)
+    #[verifier::external_body]
+    pub fn output_non_mods_for_input_non_mod(&self, in_osc: OsCode) -> (r: Vec<OsCode>)
+        ensures r@ == self.outs_for(in_osc),
+    { unimplemented!() }
+}
+/// the per-layer table `HashMap<OsCode, Vec<OsCode>>`: abstractly, for each position the LIST of
+/// output keys recorded for it (empty when the position has no entry)
 #[verifier::external_body]
 #[verifier::reject_recursive_types(K)]
 #[verifier::reject_recursive_types(V)]
 pub struct HashMap<K, V> { p: core::marker::PhantomData<(K, V)> }
 impl HashMap<OsCode, Vec<OsCode>> {
-    pub uninterp spec fn has(&self, slot: OsCode, out: OsCode) -> bool;
+    pub uninterp spec fn lst(&self, slot: OsCode) -> Seq<OsCode>;
+    pub open spec fn has(&self, slot: OsCode, out: OsCode) -> bool { self.lst(slot).contains(out) }
 }
 spec fn grows(a: HashMap<OsCode, Vec<OsCode>>, b: HashMap<OsCode, Vec<OsCode>>) -> bool {
     forall|s: OsCode, o: OsCode| #[trigger] a.has(s, o) ==> b.has(s, o)
 }
+/// R37: the idiom `match m.entry(k) { Entry::Occupied(o) => o.into_mut(), Entry::Vacant(v) =>
+/// v.insert(vec![]) }` -> this helper: a mutable borrow of the list stored for `k`, an empty list
+/// being inserted first if there is none (ASSUMED contract of the std hash-map entry API); whatever
+/// is done through the borrow is what the table holds for `k` afterwards, other positions untouched
+#[verifier::external_body]
+fn verif_entry_or_empty<'a>(m: &'a mut HashMap<OsCode, Vec<OsCode>>, k: OsCode) -> (r: &'a mut Vec<OsCode>)
+    ensures r@ == old(m).lst(k),
+        final(m).lst(k) == final(r)@,
+        forall|j: OsCode| j != k ==> final(m).lst(j) == old(m).lst(j),
+{ unimplemented!() }
+// slices of structural-equality types: `contains` is membership (ASSUMED std contract)
+pub assume_specification<T: PartialEq> [<[T]>::contains] (s: &[T], x: &T) -> (r: bool)
+    ensures r == s@.contains(*x);
 
 //@ item keyberon/src/key_code.rs enum KeyCode
 //@@ keep-vis
@@ -100,13 +124,31 @@ impl vstd::std_specs::convert::FromSpecImpl<&KeyCode> for OsCode {
 //@ raw
 spec fn osc_of(kc: KeyCode) -> OsCode { <OsCode as vstd::std_specs::convert::FromSpec<KeyCode>>::from_spec(kc) }
 
-/// ASSUMED contract of `add_kc_output` (hash-map entry API + override lookup): afterwards the
-/// table has (slot, osc); nothing is ever removed.
-#[verifier::external_body]
-pub(crate) fn add_kc_output(osc_slot: OsCode, osc: OsCode, outs: &mut HashMap<OsCode, Vec<OsCode>>, overrides: &Overrides)
-    ensures final(outs).has(osc_slot, osc), grows(*old(outs), *final(outs)),
-{ unimplemented!() }
+/// membership after `push` (the verifier does not find the witnesses of `contains` by itself)
+pub broadcast proof fn lemma_push_contains(s: Seq<OsCode>, x: OsCode)
+    ensures
+        #![trigger s.push(x)]
+        s.push(x).contains(x),
+        forall|o: OsCode| #[trigger] s.contains(o) ==> s.push(x).contains(o),
+        forall|o: OsCode| #[trigger] s.push(x).contains(o) ==> s.contains(o) || o == x,
+        s.is_prefix_of(s.push(x)),
+{
+    assert(s.push(x)[s.len() as int] == x);
+    assert forall|o: OsCode| s.contains(o) implies s.push(x).contains(o) by {
+        let i = choose|i: int| 0 <= i < s.len() && s[i] == o;
+        assert(s.push(x)[i] == o);
+    }
+    assert forall|o: OsCode| s.push(x).contains(o) implies s.contains(o) || o == x by {
+        let i = choose|i: int| 0 <= i < s.push(x).len() && s.push(x)[i] == o;
+        if i < s.len() { assert(s[i] == o); }
+    }
+}
 
+/// what the table must hold for a key `k` the position can put down: `k` itself and the output key
+/// of every override whose input key is `k` (with the override active kanata has THAT key down)
+spec fn rec(t: HashMap<OsCode, Vec<OsCode>>, slot: OsCode, k: OsCode, ov: Overrides) -> bool {
+    t.has(slot, k) && forall|i: int| 0 <= i < ov.outs_for(k).len() ==> t.has(slot, #[trigger] ov.outs_for(k)[i])
+}
 // ---- which OS keys an action can put down: written from the property statement's list of
 // key-producing forms (plain key, output chord, multi, tap-hold, tap-dance, one-shot, fork, switch,
 // chord, unmod / unshift, use-defsrc) ----------------------------------------------------------
@@ -136,11 +178,41 @@ spec fn can_output(a: KanataAction, slot: OsCode, k: OsCode) -> bool
     }
 }
 
+//@ item parser/src/cfg/key_outputs.rs fn add_kc_output
+//@@ keep-vis
+//@@ attr #[verifier::loop_isolation(false)]
+//@@ spec
+    ensures
+        // the key itself and every override output of it are recorded for the position
+        final(outs).has(osc_slot, osc),
+        forall|i: int| 0 <= i < overrides.outs_for(osc).len() ==> final(outs).has(osc_slot, #[trigger] overrides.outs_for(osc)[i]),
+        // nothing recorded earlier is removed or reordered: the old list is a prefix of the new one
+        old(outs).lst(osc_slot).is_prefix_of(final(outs).lst(osc_slot)),
+        // nothing else is added
+        forall|o: OsCode| #[trigger] final(outs).has(osc_slot, o) ==> old(outs).has(osc_slot, o) || o == osc || overrides.outs_for(osc).contains(o),
+        // every other position is untouched
+        forall|s: OsCode| s != osc_slot ==> final(outs).lst(s) == old(outs).lst(s),
+        grows(*old(outs), *final(outs)),
+//@@ resub R37 1 /match outs\.entry\(osc_slot\) \{\s*Entry::Occupied\(o\) => o\.into_mut\(\),\s*Entry::Vacant\(v\) => v\.insert\(vec!\[\]\),\s*\}/ => `verif_entry_or_empty(outs, osc_slot)`
+//@@ resub R17 1 /for ov_osc in overrides\s*\.output_non_mods_for_input_non_mod\(osc\)\s*\.iter\(\)\s*\.copied\(\)/ => `for ov_osc in it: overrides.output_non_mods_for_input_non_mod(osc)`
+//@@ after-re 1 /let outputs = verif_entry_or_empty\(outs, osc_slot\);/
+    let ghost l0 = outputs@;
+    let ghost xs = overrides.outs_for(osc);
+    broadcast use lemma_push_contains;
+//@@ loop 1
+        invariant
+            it.seq() == xs, 0 <= it.index@ <= xs.len(),
+            l0.is_prefix_of(outputs@),
+            outputs@.contains(osc),
+            forall|i: int| 0 <= i < it.index@ ==> outputs@.contains(#[trigger] xs[i]),
+            forall|o: OsCode| #[trigger] outputs@.contains(o) ==> l0.contains(o) || o == osc || xs.contains(o),
+//@@ after-re 1 /for ov_osc in it: overrides\.output_non_mods_for_input_non_mod\(osc\)\s*\{/
+        proof { assert(ov_osc == xs[it.index@ as int]); assert(xs.contains(ov_osc)); }
 //@ item parser/src/cfg/key_outputs.rs fn add_key_output_from_action_to_key_pos
 //@@ spec
     ensures
         // completeness: every key the action can put down is in the table for this position
-        forall|k: OsCode| #[trigger] can_output(*action, osc_slot, k) ==> final(outputs).has(osc_slot, k),
+        forall|k: OsCode| #[trigger] can_output(*action, osc_slot, k) ==> rec(*final(outputs), osc_slot, k, *overrides),
         grows(*old(outputs), *final(outputs)),
     decreases action,
 //@@ sub R10 1 `for kc in kcs.iter()` => `for kc in it: kcs.iter()`
@@ -155,56 +227,56 @@ spec fn can_output(a: KanataAction, slot: OsCode, k: OsCode) -> bool
                     *action matches Action::MultipleKeyCodes(a0) && a0@ == kcs@,
                     it.seq().len() == kcs@.len(),
                     forall|i: int| 0 <= i < kcs@.len() ==> *(#[trigger] it.seq()[i]) == kcs@[i],
-                    forall|j: int| 0 <= j < it.index@ ==> outputs.has(osc_slot, osc_of(#[trigger] kcs@[j])),
+                    forall|j: int| 0 <= j < it.index@ ==> rec(*outputs, osc_slot, osc_of(#[trigger] kcs@[j]), *overrides),
 //@@ loop-at `Action::MultipleActions(actions) =>`
                 invariant
                     grows(*old(outputs), *outputs),
                     *action matches Action::MultipleActions(a0) && a0@ == actions@,
                     it.seq().len() == actions@.len(),
                     forall|i: int| 0 <= i < actions@.len() ==> *(#[trigger] it.seq()[i]) == actions@[i],
-                    forall|j: int, k: OsCode| 0 <= j < it.index@ && #[trigger] can_output(actions@[j], osc_slot, k) ==> outputs.has(osc_slot, k),
+                    forall|j: int, k: OsCode| 0 <= j < it.index@ && #[trigger] can_output(actions@[j], osc_slot, k) ==> rec(*outputs, osc_slot, k, *overrides),
 //@@ loop-at `Action::TapDance(TapDance { actions, .. }) =>`
                 invariant
                     grows(*old(outputs), *outputs),
                     *action matches Action::TapDance(t0) && t0.actions@ == actions@,
                     it.seq().len() == actions@.len(),
                     forall|i: int| 0 <= i < actions@.len() ==> *(#[trigger] it.seq()[i]) == actions@[i],
-                    forall|j: int, k: OsCode| 0 <= j < it.index@ && #[trigger] can_output(*actions@[j], osc_slot, k) ==> outputs.has(osc_slot, k),
+                    forall|j: int, k: OsCode| 0 <= j < it.index@ && #[trigger] can_output(*actions@[j], osc_slot, k) ==> rec(*outputs, osc_slot, k, *overrides),
 //@@ loop-at `Action::Chords(ChordsGroup { chords, .. }) =>`
                 invariant
                     grows(*old(outputs), *outputs),
                     *action matches Action::Chords(c0) && c0.chords@ == chords@,
                     it.seq().len() == chords@.len(),
                     forall|i: int| 0 <= i < chords@.len() ==> *(#[trigger] it.seq()[i]) == chords@[i],
-                    forall|j: int, k: OsCode| 0 <= j < it.index@ && #[trigger] can_output(*chords@[j].1, osc_slot, k) ==> outputs.has(osc_slot, k),
+                    forall|j: int, k: OsCode| 0 <= j < it.index@ && #[trigger] can_output(*chords@[j].1, osc_slot, k) ==> rec(*outputs, osc_slot, k, *overrides),
 //@@ loop-at `Action::Switch(Switch { cases }) =>`
                 invariant
                     grows(*old(outputs), *outputs),
                     *action matches Action::Switch(s0) && s0.cases@ == cases@,
                     it.seq().len() == cases@.len(),
                     forall|i: int| 0 <= i < cases@.len() ==> *(#[trigger] it.seq()[i]) == cases@[i],
-                    forall|j: int, k: OsCode| 0 <= j < it.index@ && #[trigger] can_output(*cases@[j].1, osc_slot, k) ==> outputs.has(osc_slot, k),
+                    forall|j: int, k: OsCode| 0 <= j < it.index@ && #[trigger] can_output(*cases@[j].1, osc_slot, k) ==> rec(*outputs, osc_slot, k, *overrides),
 //@@ loop-at `Action::Custom(cacs) =>`
                 invariant
                     grows(*old(outputs), *outputs),
                     *action matches Action::Custom(c0) && c0@ == cacs@,
                     ito.seq().len() == cacs@.len(),
                     forall|i: int| 0 <= i < cacs@.len() ==> *(#[trigger] ito.seq()[i]) == cacs@[i],
-                    forall|j: int, k: OsCode| 0 <= j < ito.index@ && #[trigger] custom_out(*cacs@[j], k) ==> outputs.has(osc_slot, k),
+                    forall|j: int, k: OsCode| 0 <= j < ito.index@ && #[trigger] custom_out(*cacs@[j], k) ==> rec(*outputs, osc_slot, k, *overrides),
 //@@ loop-at `for k in iti: keys.iter()`
                             invariant
                                 grows(*old(outputs), *outputs),
                                 iti.seq().len() == keys@.len(),
                                 forall|i: int| 0 <= i < keys@.len() ==> *(#[trigger] iti.seq()[i]) == keys@[i],
-                                forall|j: int| 0 <= j < iti.index@ ==> outputs.has(osc_slot, osc_of(#[trigger] keys@[j])),
+                                forall|j: int| 0 <= j < iti.index@ ==> rec(*outputs, osc_slot, osc_of(#[trigger] keys@[j]), *overrides),
                                 // what the enclosing loop has established so far
-                                forall|j: int, k: OsCode| 0 <= j < ito.index@ && #[trigger] custom_out(*cacs@[j], k) ==> outputs.has(osc_slot, k),
+                                forall|j: int, k: OsCode| 0 <= j < ito.index@ && #[trigger] custom_out(*cacs@[j], k) ==> rec(*outputs, osc_slot, k, *overrides),
 //@@ after 1 `| Action::ReleaseState(_) => {} };`
     proof {
         // one case analysis at the end: unfold `can_output` for the form of the action and pick the
         // witness of the existential for the list-shaped forms (the loops' invariants at exit give
         // the fact for every element)
-        assert forall|k: OsCode| #[trigger] can_output(*action, osc_slot, k) implies outputs.has(osc_slot, k) by {
+        assert forall|k: OsCode| #[trigger] can_output(*action, osc_slot, k) implies rec(*outputs, osc_slot, k, *overrides) by {
             match *action {
                 Action::MultipleKeyCodes(kcs) => {
                     let i = choose|i: int| 0 <= i < kcs@.len() && osc_of(kcs@[i]) == k;
